@@ -15,6 +15,10 @@ class Unsupported(Exception):
     pass
 
 
+class FuelExhausted(Unsupported):
+    """A `while` loop ran longer than `loop_fuel` iterations (callers that can bound the loop treat this as a finding)."""
+
+
 class Opaque:
     """A value the domain knows nothing about; using it in a decision is Unsupported."""
 
@@ -26,6 +30,16 @@ class Opaque:
 
 
 class MiniEval:
+    # Iterating over a set has no defined order, so by default it is not evaluated at all.  A caller that wants to decide
+    # whether the result depends on that order sets `set_order` to "asc" and to "desc" in two runs and compares.
+    set_order: str | None = None
+    loop_fuel: int = 10000
+
+    def ordered(self, it: Any) -> Any:
+        if isinstance(it, (set, frozenset)) and self.set_order in ("asc", "desc"):
+            return sorted(it, key=repr, reverse=self.set_order == "desc")
+        return it
+
     # ---- hooks ---------------------------------------------------------
     def name(self, ident: str, env: dict) -> Any:
         if ident in env:
@@ -128,6 +142,7 @@ class MiniEval:
                 it = self.ev(st.iter, env)
                 if isinstance(it, dict):
                     it = list(it)  # keys in insertion order, as in Python
+                it = self.ordered(it)
                 if not isinstance(it, (list, tuple)):
                     raise Unsupported(f"iteration over {it!r}")
                 broke = False
@@ -142,11 +157,11 @@ class MiniEval:
                     return r
                 continue
             if isinstance(st, ast.While) and not st.orelse:
-                fuel = 10000
+                fuel = self.loop_fuel
                 while self.truth(self.ev(st.test, env)):
                     fuel -= 1
                     if fuel < 0:
-                        raise Unsupported("while loop does not terminate within the fuel bound")
+                        raise FuelExhausted("while loop does not terminate within the fuel bound")
                     r = self.run(st.body, env)
                     if r[0] == "break":
                         break
